@@ -100,6 +100,19 @@ func (ci *cindex) init(ddir string) error {
 		return err
 	}
 
+	// The snapshot can refer to trees of an index file that was lost or re-created empty since the snapshot was
+	// written (createIndexAndUpdateMap replaces a file it cannot open). Such a root points to a free block, which
+	// would be written to and handed out to another chunk again. A chunk without a root gets its index rebuilt
+	// by scanning the chunk.
+	for src, sc := range ci.journals {
+		for _, c := range sc {
+			if c.IdxRoot.IndexId != 0 && !ci.cc.isTree(c.IdxRoot) {
+				ci.logger.Warn("init(): the index root ", c.IdxRoot, " of chunk ", c.Id, " of partition \"", src, "\" does not point to a tree, dropping it")
+				c.IdxRoot = Item{}
+			}
+		}
+	}
+
 	aiMap := make(map[uint64]bool)
 	for _, sc := range ci.journals {
 		for _, c := range sc {
